@@ -1847,12 +1847,16 @@ impl TypeLayout {
                 }
             }
             (lhs, rhs, BinaryXor | BinaryAnd | BinaryOr | BitwiseLs | BitwiseRs) => {
+                // same promotion as the interpreter applies
                 match (lhs, rhs) {
-                    (Int, Int | BigInt | Byte) => Int,
+                    (Int, Int | Byte) => Int,
+                    (Int, BigInt) => BigInt,
                     //======================
                     (BigInt, BigInt | Int | Byte) => BigInt,
                     //======================
-                    (Byte, Byte | Int | BigInt) => Int,
+                    (Byte, Byte) => Byte,
+                    (Byte, Int) => Int,
+                    (Byte, BigInt) => BigInt,
                     _ => return None,
                 }
             }
